@@ -1,8 +1,23 @@
 (* Run/C18: evaluation of model and property on harness cases.
    Every input is emitted twice by the harness: kind KWire (acceptance, wire data, decoders,
    record row) and kind KRt (printing the stored list and parsing the print again). *)
+From Coq Require Export Uint63.
 From DnsV Require Export Model.Svcb Spec.SvcbWire.
 Open Scope N_scope.
+
+(* Transport encoding of byte strings in the generated case files: seven bytes per
+   63-bit machine integer, least significant byte first, a 1 above the last byte
+   (a list literal of N numerals costs about 25 times more to elaborate).  Used only
+   to write the harness observations down; model and specification work on [bytes]. *)
+Fixpoint unw (fuel : nat) (w : int) : bytes :=
+  match fuel with
+  | O => []
+  | S f => if (w <=? 1)%uint63 then []
+           else Z.to_N (Uint63.to_Z (w land 255)%uint63) :: unw f (w >> 8)%uint63
+  end.
+Definition bs (l : list int) : bytes := flat_map (unw 7) l.
+(* n copies of a pattern, for the inputs at the 16-bit length limit *)
+Definition rp (n : N) (p : bytes) : bytes := concat (repeat p (N.to_nat n)).
 
 Inductive kind := KWire | KRt.
 
